@@ -25,7 +25,8 @@ META = {
         "into the rhs vector with the writer's 'stoich' key. R15: deficiency == n_complexes - n_linkage - rank and "
         "delta_l == n_l - 1 - s_l as linear forms; complex graph arc reactant->product; complexes de-duplicated by "
         "vector; linkage classes = components of the undirected complex graph; weak reversibility = each such "
-        "component strongly connected."
+        "component strongly connected (read on the load-time normal form: search loops as all(..), accumulate loops as "
+        "comprehensions); check_deficiency_zero is tabulated over (deficiency, weakly reversible)."
     ),
     "rules": {"R5": "directed-walk rule (DiGraph out-arc semantics + writer role table)",
               "R3b": "edge attribute key agreement with the writer", "R15": "symbolic arithmetic of the deficiency formulas",
